@@ -145,7 +145,7 @@ def r3_match_shape(ctx, res):
     ys = [r for r in fv.rows if r[0] == 'yield']
     key = 'colon-star-appended'
     res.inst(key, f.module.loc(f.node), "specifier + ':*' exactly when it has no colon")
-    want = "{'specifier': $1 + ':*' if ':' not in $1 else $1, 'language': lang}"
+    want = "{'specifier': $1 if ':' in $1 else $1 + ':*', 'language': lang}"
     okp = bool(ys) and all(len(r[3]) == 2 and r[3][0] == 'for lexicon.split()' for r in ys)
     if not okp or not all(want in r[3][1] for r in ys):
         res.find(key, f.module.loc(f.node), '":*" is no longer appended exactly when the specifier has no colon (a bare id must match every '
